@@ -364,7 +364,8 @@ func enumSequences() [][]int {
 }
 
 // large frame sequences (length-extension bit, 64 KiB boundaries): the cut is enumerated over the offsets around
-// every frame header, just inside both ends of every body, the middle of every body and the end of the stream
+// every frame header, just inside both ends of every body, the middle of every body, the three offsets around every
+// power-of-two boundary (4 KiB .. 64 KiB) inside every body, and the end of the stream
 func enumLargeSequences() [][]int {
 	return [][]int{{0xFFFF}, {0x10000}, {0x1FFFF}, {1, 0x10000, 1}, {70000, 70000}, {0x10001, 0, 0xFFFF}}
 }
@@ -387,6 +388,12 @@ func largeCutOffsets(seq []int) []int {
 		if l > 2 {
 			add(pos + 4 + l/2)
 			add(pos + 4 + l - 1)
+		}
+		// around every power-of-two boundary inside the body (chunked reads and writes change behaviour there)
+		for k := 4096; k <= 65536 && k < l; k *= 2 {
+			add(pos + 4 + k - 1)
+			add(pos + 4 + k)
+			add(pos + 4 + k + 1)
 		}
 		pos += 4 + l
 	}
